@@ -112,6 +112,42 @@ def run(ctx):
                 c2 = {"fn": "rho position", "n": n, "i": i, "j": j}
                 ctx.case(c2)
                 ctx.require("rho(space,space)[:,i,j] == rho(row i,row j)", bool(torch.allclose(rho[:, i, j], one.reshape(2), rtol=1e-12, atol=0)), c2)
+    # ---- leftmost tensor factor = site 0: rotations of explicit arrays vs dense numpy Kronecker products
+    from functools import reduce
+    ud = U.create_dict()
+    def cmat(name):
+        t = ud[name].numpy(); return t[0] + 1j * t[1]
+    for n in (2, 3):
+        cw = ComplexWaveFunction(n, gpu=False)
+        dm = DensityMatrix(n, 1, 1, gpu=False)
+        sp = cw.generate_hilbert_space()
+        strings = ["".join(t) for t in itertools.product("XYZ", repeat=n)]
+        for basis in strings:
+            if basis == basis[::-1] and not ctx.thorough:
+                continue
+            c2 = {"fn": "tensor factor order", "n": n, "basis": basis}
+            ctx.case(c2, nontrivial=(basis != basis[::-1]))
+            dense = reduce(np.kron, [cmat(ch) for ch in basis])
+            vec = rng.normal(size=2 ** n) + 1j * rng.normal(size=2 ** n)
+            arr = torch.tensor(np.stack([vec.real, vec.imag]), dtype=torch.double)
+            ok, out = ctx.call("rotate_psi", c2, U.rotate_psi, cw, basis, sp, psi=arr)
+            if ok:
+                got = out[0].numpy() + 1j * out[1].numpy()
+                ctx.require("rotate_psi: site 0 is the leftmost Kronecker factor (position k = big-endian state k)",
+                            bool(np.allclose(got, dense @ vec, rtol=1e-10, atol=1e-12)), c2, float(np.abs(got - dense @ vec).max()))
+            a = rng.normal(size=(2 ** n, 2 ** n)) + 1j * rng.normal(size=(2 ** n, 2 ** n)); h = a + a.conj().T
+            rarr = torch.tensor(np.stack([h.real, h.imag]), dtype=torch.double)
+            ok, out = ctx.call("rotate_rho", c2, U.rotate_rho, dm, basis, sp, rho=rarr)
+            if ok:
+                got = out[0].numpy() + 1j * out[1].numpy()
+                ctx.require("rotate_rho: site 0 is the leftmost Kronecker factor",
+                            bool(np.allclose(got, dense @ h @ dense.conj().T, rtol=1e-10, atol=1e-11)), c2)
+            # fast path agrees: entry idx(state) of the dense rotation
+            st = sp[[1, 2 ** n - 2]]
+            ok, out = ctx.call("rotate_psi_inner_prod", c2, U.rotate_psi_inner_prod, cw, basis, st, psi=arr)
+            if ok:
+                got = out[0].numpy() + 1j * out[1].numpy()
+                ctx.require("rotate_psi_inner_prod picks entry idx(state)", bool(np.allclose(got, (dense @ vec)[[1, 2 ** n - 2]], rtol=1e-10, atol=1e-12)), c2)
     # ---- reference-basis extraction
     for t in range(40 if ctx.thorough else 12):
         N = int(rng.integers(1, 9)); n = int(rng.integers(1, 5))
